@@ -58,6 +58,14 @@ static void run_C18(const Args &a, long cs) {
 			}
 			Table &T = *h.twin; Table &CT = *static_cast<Table *>(h.c.data);
 			bool populated = T.get_ndim() != 0;
+			if (!populated && kind >= 11 && kind % 3 == 0) { // operations that need a table must fail cleanly on a valid handle whose table is still empty
+				phase_log("calls on an empty table"); hist += "empty-table-calls;"; count("calls:on-empty-table");
+				double kn[3] = {-0.1, 0.0, 0.2}; for (int dim = -1; dim <= 1; dim++) if (splinetable_convolve(&h.c, dim, kn, 3) == 0) fail("splinetable_convolve:succeeded-on-empty-table", "dim=" + std::to_string(dim));
+				size_t pm[2] = {0, 1}; if (splinetable_permute(&h.c, pm) == 0 && T.get_ndim() == 0) { bool twinthrew = false; try { std::vector<size_t> e; T.permuteDimensions(e); } catch (std::exception &) { twinthrew = true; } if (twinthrew) fail("splinetable_permute:return-code-differs-from-C++-outcome", "empty table"); }
+				if (writesplinefitstable(outpath.c_str(), &h.c) == 0) fail("writesplinefitstable:succeeded-on-empty-table", ""); splinetable_buffer wb; wb.data = nullptr; wb.size = 0; if (writesplinefitstable_mem(&wb, &h.c) == 0) fail("writesplinefitstable_mem:succeeded-on-empty-table", ""); free(wb.data);
+				if (splinetable_ndim(&h.c) != 0) fail("state:empty-table-changed-by-failing-calls", "");
+				continue;
+			}
 			switch (kind) {
 			case 0: { phase_log("splinetable_free"); hist += "free;"; splinetable_free(&h.c); delete h.twin; h.twin = nullptr; h.live = false; count("calls:splinetable_free"); if (h.c.data) fail("splinetable_free:data-not-reset", ""); continue; }
 			case 1: case 2: { // read from disk: good / truncated / missing; into empty or occupied handle
